@@ -1802,4 +1802,78 @@ Section Verdict.
     rewrite ack_first_all, no_op_before_ack_all, acks_all, pongs_all, ops_all, !ignored_all, stops_all, dereg_all.
     reflexivity.
   Qed.
+
+  (** the softened rules follow from the strict ones *)
+  Lemma prefixb_of_eqb a b : list_eqb sframe_eqb a b = true -> prefixb a b = true.
+  Proof.
+    revert b. induction a as [|x a IH]; intros [|y b] H; simpl in *; try discriminate; [reflexivity|].
+    apply andb_true_iff in H as [H1 H2]. rewrite H1. simpl. now apply IH.
+  Qed.
+  Lemma chk_sub_frames_soften id n c : forall fs k, chk_sub_frames id n k c fs = true -> chk_sub_frames id n k (soften c) fs = true.
+  Proof.
+    induction fs as [|f fs IH]; intros k H; simpl in *.
+    - destruct c; simpl; auto.
+    - destruct f; try discriminate.
+      + destruct c0; try discriminate. apply andb_true_iff in H as [H1 H2]. rewrite H1. simpl. now apply IH.
+      + destruct c; simpl in *; auto.
+  Qed.
+  Lemma chk_op_soft_of t e : chk_op t e = true -> chk_op_soft t e = true.
+  Proof.
+    destruct e as [f|f ow|b|n i d|n|n|n|n|n|z| | |]; simpl; auto. unfold answered.
+    intro H. apply andb_true_iff in H as [H1 H2]. rewrite H1. simpl. destruct d.
+    - repeat (apply andb_true_iff in H2 as [H2 ?]). repeat (apply andb_true_iff; split); auto.
+      apply orb_true_iff. left. now apply prefixb_of_eqb.
+    - repeat (apply andb_true_iff in H2 as [H2 ?]). repeat (apply andb_true_iff; split); auto.
+      apply orb_true_iff. left. now apply prefixb_of_eqb.
+    - repeat (apply andb_true_iff in H2 as [H2 ?]). repeat (apply andb_true_iff; split); auto.
+      destruct (count (is_subscribe n) t) as [|[|k]]; auto. now apply chk_sub_frames_soften.
+    - repeat (apply andb_true_iff in H2 as [H2 ?]). repeat (apply andb_true_iff; split); auto.
+      destruct (count (is_subfail n) t) as [|[|k]]; auto. now apply prefixb_of_eqb.
+    - repeat (apply andb_true_iff in H2 as [H2 ?]). repeat (apply andb_true_iff; split); auto. now apply prefixb_of_eqb.
+  Qed.
+  Lemma chk_op_mid_of k t e : chk_op t e = true -> chk_op_mid k t e = true.
+  Proof.
+    destruct e as [f|f ow|b|n i d|n|n|n|n|n|z| | |]; simpl; auto. destruct d; auto.
+    intro H. apply andb_true_iff in H as [H1 H2]. rewrite H1. simpl.
+    apply andb_true_iff in H2 as [H2 H3]. rewrite H2. simpl.
+    destruct (count (is_subscribe n) t) as [|[|j]]; auto.
+    unfold completion_from. destruct (completion n t) eqn:C; auto.
+    destruct (stopped_or_ended n (firstn k t)); auto. now apply (chk_sub_frames_soften i n Must).
+  Qed.
+  Lemma chk_ops_from_of k t : chk_ops t = true -> chk_ops_from k t = true.
+  Proof.
+    unfold chk_ops, chk_ops_from. intro H. rewrite forallb_forall in H. apply andb_true_iff. split; apply forallb_forall; intros e He.
+    - apply chk_op_mid_of. apply H. rewrite <- (firstn_skipn k t). apply in_or_app. now left.
+    - apply chk_op_soft_of. apply H. rewrite <- (firstn_skipn k t). apply in_or_app. now right.
+  Qed.
+  Lemma chk_acks_slack_of s : forall t pending, chk_acks pending t = true -> chk_acks_slack s pending t = true.
+  Proof.
+    induction t as [|e t IH]; intros pending H; simpl in *.
+    - apply Nat.eqb_eq in H. subst. reflexivity.
+    - destruct e as [f|f ow|b|n i d|n|n|n|n|n|z| | |]; auto.
+      + destruct f; auto. destruct pending; [discriminate|auto].
+      + destruct b; auto.
+  Qed.
+  Lemma chk_pongs_slack_of s : forall t pending, chk_pongs p pending t = true -> chk_pongs_slack p s pending t = true.
+  Proof.
+    induction t as [|e t IH]; intros pending H; simpl in *.
+    - apply Nat.eqb_eq in H. subst. reflexivity.
+    - destruct (is_ping p e); auto. destruct (is_pong e); auto. destruct pending; [discriminate|auto].
+  Qed.
+
+  Lemma chk_noop_from_of : forall t k, chk_no_op_before_ack t = true -> chk_no_op_before_ack_from k t = true.
+  Proof.
+    induction t as [|e t IH]; intros k H; simpl in *; [reflexivity|].
+    destruct e as [f|f ow|b|n i d|n|n|n|n|n|z| | |]; simpl in *; try discriminate; auto.
+    - destruct f; simpl in *; try discriminate; auto.
+    - destruct b; [destruct (Nat.eqb k 0); auto|auto].
+  Qed.
+
+  Theorem model_meets_spec_from k ls : spec_verdict_from k p (trace false false false p ls) = None.
+  Proof.
+    unfold spec_verdict_from.
+    rewrite ack_first_all, (chk_noop_from_of _ _ (no_op_before_ack_all ls)), (chk_acks_slack_of _ _ _ (acks_all ls)),
+      (chk_pongs_slack_of _ _ _ (pongs_all ls)), (chk_ops_from_of _ _ (ops_all ls)), !ignored_all, stops_all, dereg_all.
+    reflexivity.
+  Qed.
 End Verdict.
